@@ -62,8 +62,7 @@ structure Mapping where
   chmuxlist : Array Int
   floorsubmap : Array Int
   residuesubmap : Array Int
-  coupling_mag : Array Int
-  coupling_ang : Array Int
+  coupling : Array (Int × Int)      -- (magnitude channel, angle channel) per step
   deriving Repr
 
 structure Mode where
@@ -81,14 +80,32 @@ structure Setup where
   modes : Array Mode
   deriving Repr
 
+
 /-- parser monad: the reader is threaded, `throw ()` is a `goto err_out` -/
 abbrev P := ExceptT Unit (StateM Reader)
 
-def rd (n : Nat) : P Int := fun r => let (v, r') := r.read n; (Except.ok v, r')
+/-- `oggpack_read`, together with the range of its answer -/
+def rdB (n : Nat) : P {v : Int // v = -1 ∨ (0 ≤ v ∧ v < (2 ^ n : Nat))} :=
+  fun r => (Except.ok ⟨(r.read n).1, r.read_range n⟩, (r.read n).2)
+def rd (n : Nat) : P Int := do let ⟨v, _⟩ ← rdB n; pure v
 def bytesUsed : P Int := fun r => (Except.ok r.bytes, r)
 def storage : P Int := fun r => (Except.ok (r.storage : Int), r)
 def fail {α} : P α := throw ()
-def guardP (c : Bool) : P Unit := if c then pure () else fail
+/-- a check of the C code: continue with the fact in hand, or `goto err_out` -/
+def need (c : Prop) [Decidable c] : P (PLift c) := if h : c then pure ⟨h⟩ else fail
+
+/-- `n` times `p`, collecting the results; every element keeps what `p` guarantees -/
+def repeatP {α} (Q : α → Prop) (p : P {x // Q x}) : (n : Nat) → P {a : Array α // a.size = n ∧ ∀ x ∈ a, Q x}
+  | 0 => pure ⟨#[], rfl, by simp⟩
+  | n + 1 => do
+      let ⟨a, h1, h2⟩ ← repeatP Q p n
+      let ⟨x, hx⟩ ← p
+      pure ⟨a.push x, by simp [h1], by
+        intro y hy
+        simp at hy
+        rcases hy with hy | rfl
+        · exact h2 y hy
+        · exact hx⟩
 
 /-- one step of the verification loop in `_book_maptype1_quantvals`: the two accumulators for a
     candidate `vals`; `LONG_MAX` guards as in the C -/
@@ -124,300 +141,466 @@ def lookup1 (entries : Int) (dim : Nat) : Int :=
     | some v => v
     | none => 0
 
+
+/-- number of quantised values a value-mapped book carries -/
+def quantvalsOf (maptype entries dim : Int) : Int :=
+  if maptype = 1 then (if dim = 0 then 0 else lookup1 entries dim.toNat) else entries * dim
+
+/-- what an accepted codebook satisfies -/
+structure BookWF (b : Book) : Prop where
+  ent0 : 0 ≤ b.entries
+  ent1 : b.entries < 16777216
+  dim0 : 0 ≤ b.dim
+  dim1 : b.dim < 65536
+  lenSize : b.lengthlist.size = b.entries.toNat
+  lenMax : ∀ l ∈ b.lengthlist, l ≤ 32
+  mapT : b.maptype = 0 ∨ b.maptype = 1 ∨ b.maptype = 2
+  mapDim : b.maptype ≠ 0 → 1 ≤ b.dim
+  qSize : b.maptype ≠ 0 → b.quantlist.size = (quantvalsOf b.maptype b.entries b.dim).toNat
+
+/-- one codeword length of the unordered layout: `used` says whether entries carry a flag bit -/
+def lengthP (flagged : Bool) : P {l : Nat // l ≤ 32} := do
+  if flagged then
+    let flag ← rd 1
+    if flag != 0 then
+      let ⟨num, hb⟩ ← rdB 5
+      let ⟨hn⟩ ← need (num ≠ -1)
+      pure ⟨(num + 1).toNat, by
+        have : ((2 ^ 5 : Nat) : Int) = 32 := by decide
+        omega⟩
+    else pure ⟨0, by omega⟩
+  else
+    let ⟨num, hb⟩ ← rdB 5
+    let ⟨hn⟩ ← need (num ≠ -1)
+    pure ⟨(num + 1).toNat, by
+      have : ((2 ^ 5 : Nat) : Int) = 32 := by decide
+      omega⟩
+
+/-- the length-ordered layout: `for(i=0;i<s->entries;)` -/
+def orderedLoop (entries : Int) : (fuel : Nat) → (i length : Int) →
+    (acc : {a : Array Nat // (a.size : Int) = i ∧ ∀ l ∈ a, l ≤ 32}) → (hi : 0 ≤ i) →
+    P {a : Array Nat // (a.size : Int) = entries ∧ ∀ l ∈ a, l ≤ 32}
+  | 0, _, _, _, _ => fail
+  | fuel + 1, i, length, ⟨acc, hs, hl⟩, hi =>
+      if hdone : ¬ (i < entries) then
+        if heq : i = entries then pure ⟨acc, by omega, hl⟩ else fail
+      else do
+        let ⟨num, hb⟩ ← rdB (ilog (entries - i))
+        let ⟨hn⟩ ← need (num ≠ -1)
+        let ⟨hg⟩ ← need (¬ (length > 32 ∨ num > entries - i ∨ (num > 0 ∧ Int.shiftRight (num - 1) (length - 1).toNat > 1)))
+        orderedLoop entries fuel (i + num) (length + 1)
+          ⟨acc ++ Array.replicate num.toNat length.toNat, by
+              simp only [Array.size_append, Array.size_replicate]
+              omega, by
+              intro l hl'
+              simp only [Array.mem_append, Array.mem_replicate] at hl'
+              rcases hl' with h | ⟨_, rfl⟩
+              · exact hl l h
+              · omega⟩
+          (by omega)
+
 /-- `vorbis_staticbook_unpack` -/
-def unpackBook : P Book := do
+def unpackBook : P {b : Book // BookWF b} := do
   let sync ← rd 24
-  guardP (sync == 0x564342)
-  let dim ← rd 16
-  let entries ← rd 24
-  guardP (entries != -1)
-  guardP (ilog dim + ilog entries ≤ 24)
+  let ⟨_⟩ ← need (sync = 0x564342)
+  let ⟨dim, hdim⟩ ← rdB 16
+  let ⟨entries, hent⟩ ← rdB 24
+  let ⟨he⟩ ← need (entries ≠ -1)
+  let ⟨hil⟩ ← need (ilog dim + ilog entries ≤ 24)
+  -- `dim` may still be -1 here only if `entries` is (sticky end of packet), so it is a real value
+  let ⟨hd⟩ ← need (dim ≠ -1)
+  have hE : 0 ≤ entries ∧ entries < 16777216 := by
+    have : ((2 ^ 24 : Nat) : Int) = 16777216 := by decide
+    omega
+  have hD : 0 ≤ dim ∧ dim < 65536 := by
+    have : ((2 ^ 16 : Nat) : Int) = 65536 := by decide
+    omega
   let ordered ← rd 1
-  let mut lengths : Array Nat := Array.mkEmpty entries.toNat
-  if ordered == 0 then
-    let unused ← rd 1
-    let st ← storage
-    let used ← bytesUsed
-    guardP (!(((entries * (if unused != 0 then 1 else 5) + 7) / 8) > st - used))
-    if unused != 0 then
-      for _ in [0:entries.toNat] do
-        let flag ← rd 1
-        if flag != 0 then
-          let num ← rd 5
-          guardP (num != -1)
-          lengths := lengths.push (num + 1).toNat
-        else lengths := lengths.push 0
-    else
-      for _ in [0:entries.toNat] do
-        let num ← rd 5
-        guardP (num != -1)
-        lengths := lengths.push (num + 1).toNat
-  else if ordered == 1 then
-    let l0 ← rd 5
-    let mut length := l0 + 1
-    guardP (length != 0)
-    let mut i : Int := 0
-    -- `for(i=0;i<s->entries;)`: i strictly increases unless num = 0, in which case length does
-    let mut fuel := entries.toNat + 40
-    while i < entries ∧ fuel > 0 do
-      fuel := fuel - 1
-      let num ← rd (ilog (entries - i))
-      guardP (num != -1)
-      guardP (!(length > 32 ∨ num > entries - i ∨ (num > 0 ∧ Int.shiftRight (num - 1) (length - 1).toNat > 1)))
-      for _ in [0:num.toNat] do
-        lengths := lengths.push length.toNat
-      i := i + num
-      length := length + 1
-    guardP (!(i < entries))
-  else fail
+  let lengths : {a : Array Nat // (a.size : Int) = entries ∧ ∀ l ∈ a, l ≤ 32} ←
+    (if ordered = 0 then do
+      let unused ← rd 1
+      let st ← storage
+      let used ← bytesUsed
+      let ⟨_⟩ ← need (¬ (((entries * (if unused != 0 then 1 else 5) + 7) / 8) > st - used))
+      let ⟨a, h1, h2⟩ ← repeatP (fun l => l ≤ 32) (lengthP (unused != 0)) entries.toNat
+      pure ⟨a, by omega, h2⟩
+    else if ordered = 1 then do
+      let l0 ← rd 5
+      let ⟨_⟩ ← need (l0 + 1 ≠ 0)
+      orderedLoop entries (entries.toNat + 40) 0 (l0 + 1) ⟨#[], by simp, by simp⟩ (by omega)
+    else fail)
   let maptype ← rd 4
-  if maptype == 0 then
-    pure { dim := dim, entries := entries, lengthlist := lengths, maptype := 0, q_min := 0, q_delta := 0,
-           q_quant := 0, q_sequencep := 0, quantlist := #[] }
-  else if maptype == 1 ∨ maptype == 2 then
-    guardP (!(dim < 1))
+  if hm0 : maptype = 0 then
+    pure ⟨{ dim := dim, entries := entries, lengthlist := lengths.val, maptype := 0, q_min := 0, q_delta := 0,
+            q_quant := 0, q_sequencep := 0, quantlist := #[] },
+          ⟨hE.1, hE.2, hD.1, hD.2, by have := lengths.property.1; simp only []; omega, lengths.property.2,
+           Or.inl rfl, fun h => absurd rfl h, fun h => absurd rfl h⟩⟩
+  else if hm : maptype = 1 ∨ maptype = 2 then do
+    let ⟨hdim1⟩ ← need (¬ (dim < 1))
     let q_min ← rd 32
     let q_delta ← rd 32
     let qq ← rd 4
-    let q_quant := qq + 1
     let q_seq ← rd 1
-    guardP (q_seq != -1)
-    let quantvals : Int := if maptype == 1 then (if dim == 0 then 0 else lookup1 entries dim.toNat) else entries * dim
+    let ⟨_⟩ ← need (q_seq ≠ -1)
     let st ← storage
     let used ← bytesUsed
-    guardP (!(((quantvals * q_quant + 7) / 8) > st - used))
-    let mut ql : Array Int := Array.mkEmpty quantvals.toNat
-    for _ in [0:quantvals.toNat] do
-      let v ← rd q_quant.toNat
-      ql := ql.push v
-    guardP (!(quantvals != 0 ∧ ql.back! == -1))
-    pure { dim := dim, entries := entries, lengthlist := lengths, maptype := maptype, q_min := q_min,
-           q_delta := q_delta, q_quant := q_quant, q_sequencep := q_seq, quantlist := ql }
+    let ⟨_⟩ ← need (¬ (((quantvalsOf maptype entries dim * (qq + 1) + 7) / 8) > st - used))
+    let ⟨ql, hq1, _⟩ ← repeatP (fun _ => True) (do let v ← rd (qq + 1).toNat; pure ⟨v, trivial⟩)
+                          (quantvalsOf maptype entries dim).toNat
+    let ⟨_⟩ ← need (¬ (quantvalsOf maptype entries dim ≠ 0 ∧ ql.back! = -1))
+    pure ⟨{ dim := dim, entries := entries, lengthlist := lengths.val, maptype := maptype, q_min := q_min,
+            q_delta := q_delta, q_quant := qq + 1, q_sequencep := q_seq, quantlist := ql },
+          ⟨hE.1, hE.2, hD.1, hD.2, by have := lengths.property.1; simp only []; omega, lengths.property.2,
+           by rcases hm with h | h <;> simp [h], fun _ => by simp only []; omega, fun _ => hq1⟩⟩
   else fail
 
+/-- book number check used by the back-end unpackers: a valid index of a value-mapped book -/
+def VqBook (books : Array Book) (b : Int) : Prop :=
+  0 ≤ b ∧ b < books.size ∧ (books[b.toNat]!).maptype ≠ 0
+
+structure Floor0WF (books : Array Book) (f : Floor0) : Prop where
+  order1 : 1 ≤ f.order
+  nb : f.books.size ≤ 16
+  bk : ∀ b ∈ f.books, VqBook books b ∧ 1 ≤ (books[b.toNat]!).dim
+
 /-- `floor0_unpack` -/
-def unpackFloor0 (books : Array Book) : P Floor0 := do
+def unpackFloor0 (books : Array Book) : P {f : Floor0 // Floor0WF books f} := do
   let order ← rd 8
   let rate ← rd 16
   let barkmap ← rd 16
   let ampbits ← rd 6
   let ampdB ← rd 8
-  let nb ← rd 4
-  let numbooks := nb + 1
-  guardP (!(order < 1)); guardP (!(rate < 1)); guardP (!(barkmap < 1)); guardP (!(numbooks < 1))
-  let mut bl : Array Int := #[]
-  for _ in [0:numbooks.toNat] do
-    let b ← rd 8
-    guardP (!(b < 0 ∨ b ≥ books.size))
-    let bk := books[b.toNat]!
-    guardP (!(bk.maptype == 0))
-    guardP (!(bk.dim < 1))
-    bl := bl.push b
-  pure { order := order, rate := rate, barkmap := barkmap, ampbits := ampbits, ampdB := ampdB, books := bl }
+  let ⟨nb, hnb⟩ ← rdB 4
+  let ⟨ho⟩ ← need (¬ (order < 1))
+  let ⟨_⟩ ← need (¬ (rate < 1))
+  let ⟨_⟩ ← need (¬ (barkmap < 1))
+  let ⟨hn1⟩ ← need (¬ (nb + 1 < 1))
+  let ⟨bl, hs, hb⟩ ← repeatP (fun b => VqBook books b ∧ 1 ≤ (books[b.toNat]!).dim) (do
+      let b ← rd 8
+      let ⟨h1⟩ ← need (¬ (b < 0 ∨ b ≥ books.size))
+      let ⟨h2⟩ ← need (¬ ((books[b.toNat]!).maptype = 0))
+      let ⟨h3⟩ ← need (¬ ((books[b.toNat]!).dim < 1))
+      pure ⟨b, ⟨by omega, by omega, h2⟩, by omega⟩) (nb + 1).toNat
+  pure ⟨{ order := order, rate := rate, barkmap := barkmap, ampbits := ampbits, ampdB := ampdB, books := bl },
+        ⟨by simp only []; omega, by
+          have : ((2 ^ 4 : Nat) : Int) = 16 := by decide
+          simp only []; omega, hb⟩⟩
+
+/-- one partition class of floor 1 -/
+structure F1Class where
+  dim : Int
+  subs : Int
+  book : Int
+  subbook : Array Int
+  deriving Repr
+
+structure F1ClassWF (nbooks : Nat) (c : F1Class) : Prop where
+  dim : 1 ≤ c.dim ∧ c.dim ≤ 8
+  subs : 0 ≤ c.subs ∧ c.subs ≤ 3
+  book : 0 ≤ c.book ∧ c.book < nbooks
+  nsub : c.subbook.size = 2 ^ c.subs.toNat
+  sub : ∀ s ∈ c.subbook, -1 ≤ s ∧ s < nbooks
+
+def unpackF1Class (nbooks : Nat) : P {c : F1Class // F1ClassWF nbooks c} := do
+  let ⟨d, hd⟩ ← rdB 3
+  let ⟨s, hs⟩ ← rdB 2
+  let ⟨hs0⟩ ← need (¬ (s < 0))
+  let cb ← (if s != 0 then rd 8 else pure 0)
+  let ⟨hcb⟩ ← need (¬ (cb < 0 ∨ cb ≥ nbooks))
+  let ⟨subs, hz, hq⟩ ← repeatP (fun v : Int => -1 ≤ v ∧ v < nbooks) (do
+      let sb ← rd 8
+      let ⟨h⟩ ← need (¬ (sb - 1 < -1 ∨ sb - 1 ≥ nbooks))
+      pure ⟨sb - 1, by omega, by omega⟩) (2 ^ s.toNat)
+  -- `d` cannot be -1 here: the reader is sticky, `s` was read after it and is not -1
+  let ⟨hd1⟩ ← need (d ≠ -1)
+  pure ⟨{ dim := d + 1, subs := s, book := cb, subbook := subs },
+        ⟨by have : ((2 ^ 3 : Nat) : Int) = 8 := by decide
+            simp only []; omega,
+         by have : ((2 ^ 2 : Nat) : Int) = 4 := by decide
+            simp only []; omega,
+         by simp only []; omega, hz, hq⟩⟩
+
+structure Floor1WF (nbooks : Nat) (f : Floor1) : Prop where
+  parts : f.partitionclass.size ≤ 31
+  pclass : ∀ c ∈ f.partitionclass, 0 ≤ c ∧ c < f.class_dim.size ∧ c < 16
+  ncls : f.class_dim.size ≤ 16
+  posts : f.postlist.size ≤ Generated.VIF_POSIT + 2
+  mult : 1 ≤ f.mult ∧ f.mult ≤ 4
+
+/-- the post list: for each partition `class_dim` values -/
+def postsLoop (rangebits : Nat) (cdim : Array Int) : (pcl : List Int) → (count : Int) →
+    (acc : {a : Array Int // (a.size : Int) = count + 2}) → (h0 : 0 ≤ count) →
+    P {a : Array Int // (a.size : Int) ≤ Generated.VIF_POSIT + 2}
+  | [], count, ⟨acc, hs⟩, _ => do
+      let ⟨h⟩ ← need (count ≤ Generated.VIF_POSIT)
+      pure ⟨acc, by omega⟩
+  | c :: rest, count, ⟨acc, hs⟩, h0 => do
+      let d := cdim[c.toNat]!
+      let ⟨hd⟩ ← need (0 ≤ d)
+      let ⟨h⟩ ← need (¬ (count + d > Generated.VIF_POSIT))
+      let ⟨vals, hv, _⟩ ← repeatP (fun _ => True) (do
+          let t ← rd rangebits
+          let ⟨_⟩ ← need (¬ (t < 0 ∨ t ≥ 2 ^ rangebits))
+          pure ⟨t, trivial⟩) d.toNat
+      postsLoop rangebits cdim rest (count + d) ⟨acc ++ vals, by simp only [Array.size_append]; omega⟩ (by omega)
+
+def nodupSorted (a : Array Int) : Bool :=
+  let s := a.qsort (· < ·)
+  (List.range s.size).all (fun j => j = 0 || s[j - 1]! != s[j]!)
 
 /-- `floor1_unpack` -/
-def unpackFloor1 (nbooks : Nat) : P Floor1 := do
-  let partitions ← rd 5
-  let mut pclass : Array Int := #[]
-  let mut maxclass : Int := -1
-  for _ in [0:partitions.toNat] do
-    let c ← rd 4
-    guardP (!(c < 0))
-    if maxclass < c then maxclass := c
-    pclass := pclass.push c
-  let mut cdim : Array Int := #[]
-  let mut csubs : Array Int := #[]
-  let mut cbook : Array Int := #[]
-  let mut csub : Array (Array Int) := #[]
-  for _ in [0:(maxclass + 1).toNat] do
-    let d ← rd 3
-    let s ← rd 2
-    guardP (!(s < 0))
-    let mut cb : Int := 0
-    if s != 0 then cb ← rd 8
-    guardP (!(cb < 0 ∨ cb ≥ nbooks))
-    let mut subs : Array Int := #[]
-    for _ in [0:(2 ^ s.toNat)] do
-      let sb ← rd 8
-      let v := sb - 1
-      guardP (!(v < -1 ∨ v ≥ nbooks))
-      subs := subs.push v
-    cdim := cdim.push (d + 1); csubs := csubs.push s; cbook := cbook.push cb; csub := csub.push subs
-  let m ← rd 2
-  let rangebits ← rd 4
-  guardP (!(rangebits < 0))
-  let mut posts : Array Int := #[0, 2 ^ rangebits.toNat]
-  let mut count : Int := 0
-  for j in [0:partitions.toNat] do
-    let d := cdim[(pclass[j]!).toNat]!
-    count := count + d
-    guardP (!(count > Generated.VIF_POSIT))
-    for _ in [0:d.toNat] do
-      let t ← rd rangebits.toNat
-      guardP (!(t < 0 ∨ t ≥ 2 ^ rangebits.toNat))
-      posts := posts.push t
-  -- no repeated values in the post list
-  let sorted := posts.qsort (· < ·)
-  let mut ok := true
-  for j in [1:sorted.size] do
-    if sorted[j - 1]! == sorted[j]! then ok := false
-  guardP ok
-  pure { partitionclass := pclass, class_dim := cdim, class_subs := csubs, class_book := cbook,
-         class_subbook := csub, mult := m + 1, postlist := posts }
+def unpackFloor1 (nbooks : Nat) : P {f : Floor1 // Floor1WF nbooks f} := do
+  let ⟨partitions, hp⟩ ← rdB 5
+  let ⟨pclass, hps, hpc⟩ ← repeatP (fun c : Int => 0 ≤ c ∧ c < 16) (do
+      let ⟨c, hc⟩ ← rdB 4
+      let ⟨h⟩ ← need (¬ (c < 0))
+      pure ⟨c, by omega, by
+        have : ((2 ^ 4 : Nat) : Int) = 16 := by decide
+        omega⟩) partitions.toNat
+  let maxclass : Int := pclass.foldl (fun m c => if m < c then c else m) (-1)
+  let ⟨classes, hcs, hcw⟩ ← repeatP (F1ClassWF nbooks) (unpackF1Class nbooks) (maxclass + 1).toNat
+  let ⟨m, hm⟩ ← rdB 2
+  let ⟨rangebits, hrb⟩ ← rdB 4
+  let ⟨hr0⟩ ← need (¬ (rangebits < 0))
+  let ⟨hm0⟩ ← need (m ≠ -1)
+  -- every partition's class must have been read (always true: `maxclass` covers them)
+  let ⟨hcover⟩ ← need (∀ c ∈ pclass, c < classes.size)
+  let cdim := classes.map (·.dim)
+  let ⟨posts, hposts⟩ ← postsLoop rangebits.toNat cdim pclass.toList 0
+      ⟨#[0, 2 ^ rangebits.toNat], by simp⟩ (by omega)
+  let ⟨_⟩ ← need (nodupSorted posts = true)
+  let ⟨hpart⟩ ← need (partitions ≠ -1)
+  let ⟨hncls⟩ ← need (classes.size ≤ 16)
+  pure ⟨{ partitionclass := pclass, class_dim := cdim, class_subs := classes.map (·.subs),
+          class_book := classes.map (·.book), class_subbook := classes.map (·.subbook),
+          mult := m + 1, postlist := posts },
+        ⟨by have : ((2 ^ 5 : Nat) : Int) = 32 := by decide
+            simp only []; omega,
+         fun c hc => ⟨(hpc c hc).1, by simp only [cdim, Array.size_map]; exact hcover c hc, (hpc c hc).2⟩,
+         by simp only [cdim, Array.size_map]; exact hncls,
+         by simp only []; omega,
+         by have : ((2 ^ 2 : Nat) : Int) = 4 := by decide
+            simp only []; omega⟩⟩
 
 def icount (v : Nat) : Nat := (List.range 32).foldl (fun n i => n + (v / 2 ^ i) % 2) 0
 
+structure ResidueWF (books : Array Book) (r : Residue) : Prop where
+  parts : 1 ≤ r.partitions ∧ r.partitions ≤ 64
+  nst : (r.secondstages.size : Int) = r.partitions
+  st : ∀ s ∈ r.secondstages, 0 ≤ s ∧ s < 256
+  gb : 0 ≤ r.groupbook ∧ r.groupbook < books.size ∧ 1 ≤ (books[r.groupbook.toNat]!).dim
+  bl : ∀ b ∈ r.booklist, VqBook books b
+  pv : 1 ≤ r.partvals ∧ r.partvals ≤ (books[r.groupbook.toNat]!).entries
+  grp : 1 ≤ r.grouping
+
+/-- `partvals = partitions^dim`, refused as soon as it exceeds the phrase book -/
+def partvalsLoop (partitions entries : Int) : Nat → (pv : Int) → (h : 1 ≤ pv ∧ pv ≤ max entries 1) →
+    P {v : Int // 1 ≤ v ∧ v ≤ max entries 1}
+  | 0, pv, h => pure ⟨pv, h⟩
+  | n + 1, pv, h => do
+      let ⟨hg⟩ ← need (¬ (pv * partitions > entries))
+      let ⟨hp⟩ ← need (1 ≤ pv * partitions)
+      partvalsLoop partitions entries n (pv * partitions) ⟨hp, by omega⟩
+
 /-- `res0_unpack` (shared by residue types 0, 1, 2) -/
-def unpackResidue (type : Int) (books : Array Book) : P Residue := do
+def unpackResidue (type : Int) (books : Array Book) : P {r : Residue // ResidueWF books r} := do
   let begin_ ← rd 24
   let end_ ← rd 24
-  let g ← rd 24
-  let p ← rd 6
-  let partitions := p + 1
+  let ⟨g, hg⟩ ← rdB 24
+  let ⟨p, hp⟩ ← rdB 6
   let groupbook ← rd 8
-  guardP (!(groupbook < 0))
-  let mut stages : Array Int := #[]
-  let mut acc : Nat := 0
-  for _ in [0:partitions.toNat] do
-    let mut cascade ← rd 3
-    let cflag ← rd 1
-    guardP (!(cflag < 0))
-    if cflag != 0 then
-      let c ← rd 5
-      guardP (!(c < 0))
-      cascade := cascade + c * 8      -- `cascade|=(c<<3)`: the low 3 bits of c<<3 are clear
-    stages := stages.push cascade
-    acc := acc + icount cascade.toNat
-  let mut bl : Array Int := #[]
-  for _ in [0:acc] do
-    let b ← rd 8
-    guardP (!(b < 0))
-    bl := bl.push b
-  guardP (!(groupbook ≥ books.size))
-  for b in bl do
-    guardP (!(b ≥ books.size))
-    guardP (!((books[b.toNat]!).maptype == 0))
-  let gb := books[groupbook.toNat]!
-  guardP (!(gb.dim < 1))
-  let mut partvals : Int := 1
-  for _ in [0:gb.dim.toNat] do
-    partvals := partvals * partitions
-    guardP (!(partvals > gb.entries))
-  pure { type := type, begin := begin_, end_ := end_, grouping := g + 1, partitions := partitions,
-         partvals := partvals, groupbook := groupbook, secondstages := stages, booklist := bl }
+  let ⟨hgb0⟩ ← need (¬ (groupbook < 0))
+  -- sticky reader: the earlier reads succeeded as well
+  let ⟨hp1⟩ ← need (p ≠ -1)
+  let ⟨hg1⟩ ← need (g ≠ -1)
+  let ⟨stages, hss, hsv⟩ ← repeatP (fun s : Int => 0 ≤ s ∧ s < 256) (do
+      let ⟨c3, h3⟩ ← rdB 3
+      let cflag ← rd 1
+      let ⟨_⟩ ← need (¬ (cflag < 0))
+      let ⟨h3'⟩ ← need (c3 ≠ -1)
+      if cflag != 0 then
+        let ⟨c, hc⟩ ← rdB 5
+        let ⟨hc0⟩ ← need (¬ (c < 0))
+        pure ⟨c3 + c * 8, by
+          have : ((2 ^ 3 : Nat) : Int) = 8 := by decide
+          have : ((2 ^ 5 : Nat) : Int) = 32 := by decide
+          omega⟩
+      else pure ⟨c3, by
+          have : ((2 ^ 3 : Nat) : Int) = 8 := by decide
+          omega⟩) (p + 1).toNat
+  let acc : Nat := stages.foldl (fun n s => n + icount s.toNat) 0
+  let ⟨bl, _, hbl⟩ ← repeatP (fun b : Int => 0 ≤ b) (do
+      let b ← rd 8
+      let ⟨h⟩ ← need (¬ (b < 0))
+      pure ⟨b, by omega⟩) acc
+  let ⟨hgb1⟩ ← need (¬ (groupbook ≥ books.size))
+  let ⟨hblk⟩ ← need (∀ b ∈ bl, b < books.size ∧ (books[b.toNat]!).maptype ≠ 0)
+  let ⟨hdim⟩ ← need (¬ ((books[groupbook.toNat]!).dim < 1))
+  let ⟨pv, hpv⟩ ← partvalsLoop (p + 1) (books[groupbook.toNat]!).entries (books[groupbook.toNat]!).dim.toNat 1
+      ⟨by omega, by omega⟩
+  let ⟨hpve⟩ ← need (pv ≤ (books[groupbook.toNat]!).entries)
+  pure ⟨{ type := type, begin := begin_, end_ := end_, grouping := g + 1, partitions := p + 1,
+          partvals := pv, groupbook := groupbook, secondstages := stages, booklist := bl },
+        ⟨by have : ((2 ^ 6 : Nat) : Int) = 64 := by decide
+            simp only []; omega,
+         by simp only []; omega, hsv,
+         ⟨by simp only []; omega, by simp only []; omega, by simp only []; omega⟩,
+         fun b hb => ⟨hbl b hb, (hblk b hb).1, (hblk b hb).2⟩,
+         ⟨hpv.1, hpve⟩,
+         by simp only []; omega⟩⟩
+
+structure MappingWF (channels : Int) (nfloors nresidues : Nat) (m : Mapping) : Prop where
+  sub : 1 ≤ m.submaps ∧ m.submaps ≤ 16
+  fl : (m.floorsubmap.size : Int) = m.submaps ∧ ∀ f ∈ m.floorsubmap, 0 ≤ f ∧ f < nfloors
+  rs : (m.residuesubmap.size : Int) = m.submaps ∧ ∀ r ∈ m.residuesubmap, 0 ≤ r ∧ r < nresidues
+  mux : m.submaps > 1 → (m.chmuxlist.size : Int) = channels ∧ ∀ c ∈ m.chmuxlist, 0 ≤ c ∧ c < m.submaps
+  cpl : m.coupling.size ≤ 256 ∧ ∀ pr ∈ m.coupling, 0 ≤ pr.1 ∧ pr.1 < channels ∧ 0 ≤ pr.2 ∧ pr.2 < channels ∧ pr.1 ≠ pr.2
 
 /-- `mapping0_unpack` -/
-def unpackMapping (channels : Int) (nfloors nresidues : Nat) : P Mapping := do
-  guardP (!(channels ≤ 0))
+def unpackMapping (channels : Int) (nfloors nresidues : Nat) :
+    P {m : Mapping // MappingWF channels nfloors nresidues m} := do
+  let ⟨hch⟩ ← need (¬ (channels ≤ 0))
   let b ← rd 1
-  guardP (!(b < 0))
-  let mut submaps : Int := 1
-  if b != 0 then
-    let s ← rd 4
-    submaps := s + 1
-    guardP (!(submaps ≤ 0))
+  let ⟨_⟩ ← need (¬ (b < 0))
+  let ⟨submaps, hsub⟩ ← (if b != 0 then do
+      let ⟨s, hs⟩ ← rdB 4
+      let ⟨h⟩ ← need (¬ (s + 1 ≤ 0))
+      pure (⟨s + 1, by
+        have : ((2 ^ 4 : Nat) : Int) = 16 := by decide
+        omega⟩ : {v : Int // 1 ≤ v ∧ v ≤ 16})
+    else pure ⟨1, by omega⟩)
   let b2 ← rd 1
-  guardP (!(b2 < 0))
-  let mut mag : Array Int := #[]
-  let mut ang : Array Int := #[]
-  if b2 != 0 then
-    let cs ← rd 8
-    let steps := cs + 1
-    guardP (!(steps ≤ 0))
-    for _ in [0:steps.toNat] do
-      let m ← rd (ilog (channels - 1))
-      let a ← rd (ilog (channels - 1))
-      guardP (!(m < 0 ∨ a < 0 ∨ m == a ∨ m ≥ channels ∨ a ≥ channels))
-      mag := mag.push m; ang := ang.push a
+  let ⟨_⟩ ← need (¬ (b2 < 0))
+  let ⟨cpl, hcs, hcp⟩ ← (if b2 != 0 then do
+      let ⟨cs, hcs⟩ ← rdB 8
+      let ⟨h⟩ ← need (¬ (cs + 1 ≤ 0))
+      let ⟨a, h1, h2⟩ ← repeatP (fun pr : Int × Int => 0 ≤ pr.1 ∧ pr.1 < channels ∧ 0 ≤ pr.2 ∧ pr.2 < channels ∧ pr.1 ≠ pr.2) (do
+          let m ← rd (ilog (channels - 1))
+          let a ← rd (ilog (channels - 1))
+          let ⟨h⟩ ← need (¬ (m < 0 ∨ a < 0 ∨ m = a ∨ m ≥ channels ∨ a ≥ channels))
+          pure ⟨(m, a), by omega, by omega, by omega, by omega, by omega⟩) (cs + 1).toNat
+      pure (⟨a, by
+        have : ((2 ^ 8 : Nat) : Int) = 256 := by decide
+        omega, h2⟩ : {a : Array (Int × Int) // a.size ≤ 256 ∧ ∀ pr ∈ a, 0 ≤ pr.1 ∧ pr.1 < channels ∧ 0 ≤ pr.2 ∧ pr.2 < channels ∧ pr.1 ≠ pr.2})
+    else pure ⟨#[], by simp, by simp⟩)
   let res ← rd 2
-  guardP (res == 0)
-  let mut chmux : Array Int := #[]
-  if submaps > 1 then
-    for _ in [0:channels.toNat] do
-      let c ← rd 4
-      guardP (!(c ≥ submaps ∨ c < 0))
-      chmux := chmux.push c
-  let mut fl : Array Int := #[]
-  let mut rs : Array Int := #[]
-  for _ in [0:submaps.toNat] do
-    let _ ← rd 8
-    let f ← rd 8
-    guardP (!(f ≥ nfloors ∨ f < 0))
-    let r ← rd 8
-    guardP (!(r ≥ nresidues ∨ r < 0))
-    fl := fl.push f; rs := rs.push r
-  pure { submaps := submaps, chmuxlist := chmux, floorsubmap := fl, residuesubmap := rs,
-         coupling_mag := mag, coupling_ang := ang }
+  let ⟨_⟩ ← need (res = 0)
+  let ⟨chmux, hmux⟩ ← (if hs1 : submaps > 1 then do
+      let ⟨a, h1, h2⟩ ← repeatP (fun c : Int => 0 ≤ c ∧ c < submaps) (do
+          let c ← rd 4
+          let ⟨h⟩ ← need (¬ (c ≥ submaps ∨ c < 0))
+          pure ⟨c, by omega, by omega⟩) channels.toNat
+      pure (⟨a, fun _ => ⟨by omega, h2⟩⟩ : {a : Array Int // submaps > 1 → (a.size : Int) = channels ∧ ∀ c ∈ a, 0 ≤ c ∧ c < submaps})
+    else pure ⟨#[], fun h => absurd h hs1⟩)
+  let ⟨frs, hfs, hfr⟩ ← repeatP (fun pr : Int × Int => (0 ≤ pr.1 ∧ pr.1 < nfloors) ∧ (0 ≤ pr.2 ∧ pr.2 < nresidues)) (do
+      let _ ← rd 8
+      let f ← rd 8
+      let ⟨h1⟩ ← need (¬ (f ≥ nfloors ∨ f < 0))
+      let r ← rd 8
+      let ⟨h2⟩ ← need (¬ (r ≥ nresidues ∨ r < 0))
+      pure ⟨(f, r), ⟨by omega, by omega⟩, ⟨by omega, by omega⟩⟩) submaps.toNat
+  pure ⟨{ submaps := submaps, chmuxlist := chmux, floorsubmap := frs.map (·.1), residuesubmap := frs.map (·.2),
+          coupling := cpl },
+        ⟨hsub,
+         ⟨by simp only [Array.size_map]; omega, by
+            intro f hf
+            simp only [Array.mem_map] at hf
+            obtain ⟨pr, hpr, rfl⟩ := hf
+            exact (hfr pr hpr).1⟩,
+         ⟨by simp only [Array.size_map]; omega, by
+            intro r hr
+            simp only [Array.mem_map] at hr
+            obtain ⟨pr, hpr, rfl⟩ := hr
+            exact (hfr pr hpr).2⟩,
+         hmux, ⟨hcs, hcp⟩⟩⟩
+
+structure ModeWF (nmaps : Nat) (m : Mode) : Prop where
+  map : 0 ≤ m.mapping ∧ m.mapping < nmaps
+  bf : m.blockflag = 0 ∨ m.blockflag = 1
+
+def unpackMode (nmaps : Nat) : P {m : Mode // ModeWF nmaps m} := do
+  let ⟨bf, hbf⟩ ← rdB 1
+  let wt ← rd 16
+  let tt ← rd 16
+  let mp ← rd 8
+  let ⟨_⟩ ← need (¬ (wt ≥ Generated.VI_WINDOWB))
+  let ⟨_⟩ ← need (¬ (tt ≥ Generated.VI_WINDOWB))
+  let ⟨h1⟩ ← need (¬ (mp ≥ nmaps))
+  let ⟨h2⟩ ← need (¬ (mp < 0))
+  -- sticky reader: `mp` was read last and is not -1, so `bf` is a real bit
+  let ⟨h3⟩ ← need (bf ≠ -1)
+  pure ⟨{ blockflag := bf, windowtype := wt, transformtype := tt, mapping := mp },
+        ⟨by simp only []; omega, by
+          have : ((2 ^ 1 : Nat) : Int) = 2 := by decide
+          simp only []; omega⟩⟩
+
+def FloorWF (books : Array Book) : Floor → Prop
+  | .f0 f => Floor0WF books f
+  | .f1 f => Floor1WF books.size f
+
+/-- everything the decoder later relies on when it indexes its tables -/
+structure SetupWF (channels : Int) (s : Setup) : Prop where
+  nbooks : 1 ≤ s.books.size ∧ s.books.size ≤ 256
+  books : ∀ b ∈ s.books, BookWF b
+  nfloors : 1 ≤ s.floors.size ∧ s.floors.size ≤ 64
+  floors : ∀ f ∈ s.floors, FloorWF s.books f
+  nres : 1 ≤ s.residues.size ∧ s.residues.size ≤ 64
+  residues : ∀ r ∈ s.residues, ResidueWF s.books r
+  nmaps : 1 ≤ s.maps.size ∧ s.maps.size ≤ 64
+  maps : ∀ m ∈ s.maps, MappingWF channels s.floors.size s.residues.size m
+  nmodes : 1 ≤ s.modes.size ∧ s.modes.size ≤ 64
+  modes : ∀ m ∈ s.modes, ModeWF s.maps.size m
 
 /-- `_vorbis_unpack_books` -/
-def unpackSetup (channels : Int) : P Setup := do
-  let nb ← rd 8
-  let nbooks := nb + 1
-  guardP (!(nbooks ≤ 0))
-  let mut books : Array Book := #[]
-  for _ in [0:nbooks.toNat] do
-    let b ← unpackBook
-    books := books.push b
+def unpackSetup (channels : Int) : P {s : Setup // SetupWF channels s} := do
+  let ⟨nb, hnb⟩ ← rdB 8
+  let ⟨h0⟩ ← need (¬ (nb + 1 ≤ 0))
+  let ⟨books, hbs, hbw⟩ ← repeatP BookWF unpackBook (nb + 1).toNat
   let nt ← rd 6
-  let times := nt + 1
-  guardP (!(times ≤ 0))
-  for _ in [0:times.toNat] do
-    let t ← rd 16
-    guardP (!(t < 0 ∨ t ≥ Generated.VI_TIMEB))
-  let nf ← rd 6
-  let nfloors := nf + 1
-  guardP (!(nfloors ≤ 0))
-  let mut floors : Array Floor := #[]
-  for _ in [0:nfloors.toNat] do
-    let ty ← rd 16
-    guardP (!(ty < 0 ∨ ty ≥ Generated.VI_FLOORB))
-    if ty == 0 then
-      let f ← unpackFloor0 books
-      floors := floors.push (.f0 f)
-    else
-      let f ← unpackFloor1 books.size
-      floors := floors.push (.f1 f)
-  let nr ← rd 6
-  let nres := nr + 1
-  guardP (!(nres ≤ 0))
-  let mut residues : Array Residue := #[]
-  for _ in [0:nres.toNat] do
-    let ty ← rd 16
-    guardP (!(ty < 0 ∨ ty ≥ Generated.VI_RESB))
-    let r ← unpackResidue ty books
-    residues := residues.push r
-  let nm ← rd 6
-  let nmaps := nm + 1
-  guardP (!(nmaps ≤ 0))
-  let mut maps : Array Mapping := #[]
-  for _ in [0:nmaps.toNat] do
-    let ty ← rd 16
-    guardP (!(ty < 0 ∨ ty ≥ Generated.VI_MAPB))
-    let m ← unpackMapping channels floors.size residues.size
-    maps := maps.push m
-  let nmo ← rd 6
-  let nmodes := nmo + 1
-  guardP (!(nmodes ≤ 0))
-  let mut modes : Array Mode := #[]
-  for _ in [0:nmodes.toNat] do
-    let bf ← rd 1
-    let wt ← rd 16
-    let tt ← rd 16
-    let mp ← rd 8
-    guardP (!(wt ≥ Generated.VI_WINDOWB))
-    guardP (!(tt ≥ Generated.VI_WINDOWB))
-    guardP (!(mp ≥ maps.size))
-    guardP (!(mp < 0))
-    modes := modes.push { blockflag := bf, windowtype := wt, transformtype := tt, mapping := mp }
+  let ⟨_⟩ ← need (¬ (nt + 1 ≤ 0))
+  let _ ← repeatP (fun _ : Int => True) (do
+      let t ← rd 16
+      let ⟨_⟩ ← need (¬ (t < 0 ∨ t ≥ Generated.VI_TIMEB))
+      pure ⟨t, trivial⟩) (nt + 1).toNat
+  let ⟨nf, hnf⟩ ← rdB 6
+  let ⟨h1⟩ ← need (¬ (nf + 1 ≤ 0))
+  let ⟨floors, hfs, hfw⟩ ← repeatP (FloorWF books) (do
+      let ty ← rd 16
+      let ⟨_⟩ ← need (¬ (ty < 0 ∨ ty ≥ Generated.VI_FLOORB))
+      if ty = 0 then
+        let ⟨f, hf⟩ ← unpackFloor0 books
+        pure ⟨Floor.f0 f, hf⟩
+      else
+        let ⟨f, hf⟩ ← unpackFloor1 books.size
+        pure ⟨Floor.f1 f, hf⟩) (nf + 1).toNat
+  let ⟨nr, hnr⟩ ← rdB 6
+  let ⟨h2⟩ ← need (¬ (nr + 1 ≤ 0))
+  let ⟨residues, hrs, hrw⟩ ← repeatP (ResidueWF books) (do
+      let ty ← rd 16
+      let ⟨_⟩ ← need (¬ (ty < 0 ∨ ty ≥ Generated.VI_RESB))
+      unpackResidue ty books) (nr + 1).toNat
+  let ⟨nm, hnm⟩ ← rdB 6
+  let ⟨h3⟩ ← need (¬ (nm + 1 ≤ 0))
+  let ⟨maps, hms, hmw⟩ ← repeatP (MappingWF channels floors.size residues.size) (do
+      let ty ← rd 16
+      let ⟨_⟩ ← need (¬ (ty < 0 ∨ ty ≥ Generated.VI_MAPB))
+      unpackMapping channels floors.size residues.size) (nm + 1).toNat
+  let ⟨nmo, hnmo⟩ ← rdB 6
+  let ⟨h4⟩ ← need (¬ (nmo + 1 ≤ 0))
+  let ⟨modes, hmos, hmow⟩ ← repeatP (ModeWF maps.size) (unpackMode maps.size) (nmo + 1).toNat
   let fr ← rd 1
-  guardP (fr == 1)
-  pure { books := books, floors := floors, residues := residues, maps := maps, modes := modes }
+  let ⟨_⟩ ← need (fr = 1)
+  have e8 : ((2 ^ 8 : Nat) : Int) = 256 := by decide
+  have e6 : ((2 ^ 6 : Nat) : Int) = 64 := by decide
+  pure ⟨{ books := books, floors := floors, residues := residues, maps := maps, modes := modes },
+        ⟨by simp only []; omega, hbw, by simp only []; omega, hfw, by simp only []; omega, hrw,
+         by simp only []; omega, hmw, by simp only []; omega, hmow⟩⟩
 
 /-- run the set-up parser on the bytes that follow the 7 byte preamble of a type-5 packet -/
 def parseSetup (channels : Int) (pkt : ByteArray) : Option Setup :=
   let r0 : Reader := { data := pkt, pos := 56, dead := pkt.size < 7 }
   match (unpackSetup channels).run r0 with
-  | (Except.ok s, _) => some s
+  | (Except.ok s, _) => some s.val
   | _ => none
 
 end Vorbis.Setup
